@@ -38,6 +38,7 @@ pub enum BinaryRequest {
     QuitQuietly(binary::QuitRequest),
     ItemTooLarge(binary::SetRequest),
     Stats(binary::StatsRequest),
+    NotSupported(binary::Request),
 }
 
 impl BinaryRequest {
@@ -70,6 +71,7 @@ impl BinaryRequest {
 
             BinaryRequest::Noop(request)
             | BinaryRequest::Version(request)
+            | BinaryRequest::NotSupported(request)
             | BinaryRequest::Stats(request) => &request.header,
 
             BinaryRequest::Flush(request) | BinaryRequest::FlushQuietly(request) => &request.header,
@@ -288,7 +290,9 @@ impl MemcacheBinaryCodec {
             | Some(binary::Command::SaslListMechs)
             | Some(binary::Command::SaslStep) => {
                 error!("Command not supported, opcode: {:?}", self.header.opcode);
-                Ok(None)
+                Ok(Some(BinaryRequest::NotSupported(binary::Request {
+                    header: self.header,
+                })))
             }
 
             Some(binary::Command::OpCodeMax) => {
